@@ -141,12 +141,22 @@ def e3(ctx):
             errs = [e for e in res.log if e["kind"] == "ret0" and not e["chain"] and tag(e["value"]) in ("variant",) and e["value"][2] == "Err"]
             errs += [e for e in res.log if e["kind"] == "ret0" and not e["chain"] and tag(e["value"]) == "vsum" and "Err" in dict(e["value"][2]) and "Ok" not in dict(e["value"][2])]
             n = 0
+            memo_ = {}
             for r in errs:
                 n += 1
                 bad = []
                 # an error return no input can reach (`let Some(..) = seg.split_at(size) else { return Err(..) }` behind `size <= seg.size`) is no failure
                 import dnf as D
-                cond_r = D.block_dnf(ev, res, b, r["bb"])
+                cond_r = D.block_dnf(ev, res, b, r["bb"], shared_memo=memo_)
+                if cond_r and any(c_["kind"] == "call" and c_.get("inlined") and c_["callee"].endswith("find_prev_and_next") for c_ in res.log):
+                    cond_r = D.block_dnf(ev, res, b, r["bb"], lit=canon)
+                    # .. or that the postcondition of the position search rules out (it only returns segments that satisfy the search predicate)
+                    post = set()
+                    for c_ in res.log:
+                        if c_["kind"] == "call" and c_.get("inlined") and c_["callee"].endswith("find_prev_and_next"):
+                            post |= set(callee_variant_facts(ctx, ev, c_, ("Some",)))
+                    if post:
+                        cond_r = [c2 for c2 in cond_r if not D.conj_unsat(set(c2) | post)]
                 if cond_r is not None and len(cond_r) == 0:
                     yield Ob(key_of("C04-E3", b.path, "err-after-effect", n), True, "Err return at %s: its path condition is contradictory (unreachable)" % ctx.loc(r), ctx.loc(r))
                     continue
